@@ -124,6 +124,9 @@ class NotImplementedSECoPError(SECoPError, NotImplementedError):
     was requested. This should not be used in productive setups, but is very
     helpful during development."""
     name = 'NotImplemented'
+    # NotImplementedError comes first in the mro and has an __init__ of its own:
+    # without this, raising_methods stays None and str() of the error raises
+    __init__ = SECoPError.__init__
 
 
 class NoSuchParameterError(SECoPError):
